@@ -486,3 +486,53 @@ def template_programs():
     out.append(("while-true-nested-else-break", f"def f(a, b):\n    x = 0\n    while True:\n        x += 1\n        for i0 in it({t()}):\n            if d({t()}):\n                return x\n        else:\n            if d({t()}):\n                break\n    return e({t()}, x)\n"))
     out.append(("while-1-only-inner-exit", f"def f(a, b):\n    x = 0\n    while 1:\n        x += 1\n        while d({t()}):\n            e({t()}, x)\n        else:\n            break\n"))
     return out
+
+
+def jump_arm_programs():
+    """exhaustive small family: a loop whose body is an if / elif / else chain with every combination of arm kinds
+    (pass, continue, break, return, a statement), followed by nothing / a statement / break / return, with and without a
+    loop-else, for while and for loops, followed by a trailing statement - 5^3 x 6 x 2 x 2 = 3000 programs, plus 768 four-arm chains.  Loops that
+    are loops only because of one continue arm, arms that all leave, empty arms next to jumping arms ... all occur."""
+    import itertools
+
+    out = []
+    arms = ["pass", "continue", "break", "return e({t}, 7)", "x = e({t}, x)"]
+    tails = [None, "x = e({t}, x + 1)", "break", "return e({t}, x)", "x = e({t}, x + 1)\n        break", "x = e({t}, x + 1)\n        return e({t}, x)"]
+    n = [500]
+
+    def t():
+        n[0] += 1
+        return n[0]
+
+    for a1, a2, a3 in itertools.product(arms, repeat=3):
+        for tail in tails:
+            for loop in ("while d({t}):", "for i0 in it({t}):"):
+                for orelse in (False, True):
+                    lines = ["def f(a, b):", "    x = 0", "    " + loop.format(t=t())]
+                    lines += [f"        if d({t()}):", "            " + a1.format(t=t())]
+                    lines += [f"        elif d({t()}):", "            " + a2.format(t=t())]
+                    lines += ["        else:", "            " + a3.format(t=t())]
+                    if tail:
+                        lines.append("        " + tail.replace("{t}", "{}").format(*[t() for _ in range(tail.count("{t}"))]))
+                    if orelse:
+                        lines += ["    else:", f"        x = e({t()}, -1)"]
+                    lines += [f"    e({t()}, x)", "    return x"]
+                    out.append((f"arms:{a1[:4]}/{a2[:4]}/{a3[:4]}:{(tail or 'none')[:5]}:{loop[:3]}:{'else' if orelse else 'noelse'}", "\n".join(lines) + "\n"))
+    # four-arm chains over (pass, continue, return, statement), body ending in break, optionally after a statement or
+    # a conditional return: 4^4 x 3 = 768 programs
+    arms4 = ["pass", "continue", "return e({}, 7)", "x = e({}, x)"]
+    tails4 = ["break", "x = e({}, x + 1)\n        break", "if d({}):\n            return e({}, 9)\n        break"]
+
+    def fill(text):
+        return text.format(*[t() for _ in range(text.count("{}"))])
+
+    for chain in itertools.product(arms4, repeat=4):
+        for tail in tails4:
+            lines = ["def f(a, b):", "    x = 0", f"    while d({t()}):"]
+            for i, a in enumerate(chain):
+                head = f"if d({t()}):" if i == 0 else (f"elif d({t()}):" if i < 3 else "else:")
+                lines += ["        " + head, "            " + fill(a)]
+            lines.append("        " + fill(tail))
+            lines += [f"    return e({t()}, x)"]
+            out.append(("arms4:" + "/".join(a[:4] for a in chain) + ":" + tail[:5], "\n".join(lines) + "\n"))
+    return out
